@@ -210,11 +210,11 @@ def opt_class(f):
 def key_of(case, symptom):
     f = case['f']
     if 'base' in f:
-        parts = [case['tool'], ' '.join('-T ' + t[0] for t in case['T'])]
+        parts = [case['tool'], '-T', '+'.join(t[0] for t in case['T'])]
     else:
         parts = [case['tool'], f['cmd'], opt_class(f)]
         if case.get('T'):
-            parts.append(' '.join('-T ' + t[0] for t in case['T']))
+            parts += ['-T', '+'.join(t[0] for t in case['T'])]
     parts.append(symptom)
     return ':'.join(parts)
 
@@ -853,6 +853,84 @@ def check_render_case(case, tmp, T, R=None):
     return out, 'violation' if out else 'both_ok'
 
 
+# ------------------------------------------------------- graph arguments --
+def check_gsave_case(case, tmp, T, R=None):
+    """The graph a graph argument builds is the graph `save` stores (and, for
+    the deterministic constructions, the graph of the library constructor).
+    Observed at make_graph_from_spec, the function behind the argparse actions:
+    gives defects of the graph-argument machinery one narrow key instead of
+    one per sub-command."""
+    L = _lib()
+    from cnfgen.clitools.graph_args import make_graph_from_spec
+    out = []
+    gd = case['g']
+    tag = tmp.tag()
+    toks, stdin, files = T.graph_tokens(gd, tmp.path, tag)
+    for p_, t_ in files:
+        tmp.write(p_, t_)
+    mods = [x for x in gd['tok'] if x in ('plantclique', 'addedges', 'splitedges', 'plantbiclique')]
+    what = '+'.join([gd['tok'][0]] + mods) if gd['tok'] else gd['lib'][0]
+
+    def bad(sym, text):
+        out.append({'key': 'graph-arg:%s:%s:%s' % (gd['t'], what, sym), 'what': scrub(text, tmp), 'case': case})
+
+    random.seed(hseed(case))
+    old = sys.stdin
+    sys.stdin = io.StringIO(stdin or '')
+    try:
+        try:
+            G = make_graph_from_spec(gd['t'], [str(x) for x in toks])
+        except ValueError:         # documented refusal (e.g. no missing edge left to add)
+            return out, 'both_refuse'
+        except Exception as e:     # noqa
+            bad('exception:' + type(e).__name__, 'graph argument %r raised %r' % (toks, e))
+            return out, 'violation'
+    finally:
+        sys.stdin = old
+    H = T.graph_lib(gd, tmp.path, tag, L)
+    a, b = T.graph_facts(G), T.graph_facts(H)
+    if R is not None:
+        R.outcomes['graph:' + gd['lib'][0]] += 1
+        R.nt = len(a[2]) > 0
+    if a != b:
+        sym = {'saved': 'saved-graph-differs-from-used', 'direct': 'differs-from-library-constructor',
+               'file': 'differs-from-readGraph', 'stdin': 'differs-from-readGraph'}[gd['lib'][0]]
+        bad(sym, 'graph argument %r gives %r, the library side %r' % (toks, a, b))
+        return out, 'violation'
+    return out, 'both_ok'
+
+
+def gsave_cases(tier, seed):
+    import ref.c17_cli_table as T
+    cs = []
+    seen = set()
+    boxes = (T.SIMPLE_CORE + T.SIMPLE_MORE + T.SIMPLE_EVEN + T.SMALL_SIMPLE + T.DAG_CORE + T.DAG_MORE +
+             T.BIP_CORE + T.BIP_MORE + T.BIP_LEFT3)
+    # every random construction / modifier x every format x both ways of naming the format
+    base = {'simple': [['gnp', 5, 0.5], ['gnm', 5, 4], ['gnd', 4, 2], ['gnp', 2, 0.5, 2],
+                       ['complete', 3, 'plantclique', 2], ['empty', 4, 'addedges', 3],
+                       ['grid', 2, 2, 'splitedges', 2], ['gnp', 6, 0.3, 'plantclique', 3, 'addedges', 1,
+                                                         'splitedges', 1]],
+            'dag': [['path', 2], ['tree', 1], ['pyramid', 2]],
+            'bipartite': [['glrp', 3, 2, 0.5], ['glrm', 2, 3, 3], ['glrd', 3, 3, 2], ['regular', 2, 4, 2],
+                          ['shift', 2, 3, 1], ['empty', 2, 2, 'plantbiclique', 1, 2],
+                          ['glrm', 3, 3, 2, 'addedges', 2, 'plantbiclique', 1, 1]]}
+    fmts = {'simple': ['kthlist', 'gml', 'dot', 'dimacs'], 'dag': ['kthlist', 'gml', 'dot', 'dimacs'],
+            'bipartite': ['kthlist', 'gml', 'dot', 'matrix']}
+    more = []
+    for t in ('simple', 'dag', 'bipartite'):
+        for tok in base[t]:
+            for fmt in fmts[t]:
+                for explicit in (False, True):
+                    more.append({'t': t, 'tok': [str(x) for x in tok], 'lib': ['saved', fmt, explicit]})
+    for gd in boxes + more:
+        k = json.dumps(gd, sort_keys=True)
+        if k not in seen:
+            seen.add(k)
+            cs.append({'kind': 'gsave', 'g': gd})
+    return cs
+
+
 # ----------------------------------------------------------- introspection --
 def registered():
     from cnfgen.clitools.cmdline import get_formula_helpers, get_transformation_helpers
@@ -1070,7 +1148,7 @@ def render_cases(tier, seed):
 
 def all_cases(tier, seed):
     return (formula_cases(tier, seed) + chain_cases(tier, seed) + k2p_cases(tier, seed) +
-            shuffle_cases(tier, seed) + render_cases(tier, seed))
+            shuffle_cases(tier, seed) + render_cases(tier, seed) + gsave_cases(tier, seed))
 
 
 def cost(c):
@@ -1087,6 +1165,8 @@ def cost(c):
         return 2.0
     if c['kind'] == 'k2p':
         return 3.0
+    if c['kind'] == 'gsave':
+        return 0.1
     return 2.0
 
 
@@ -1108,7 +1188,7 @@ def shards(tier, seed):
 
 
 CHECKERS = {'formula': check_formula_case, 'k2p': check_k2p_case, 'shuffle': check_shuffle_case,
-            'render': check_render_case}
+            'render': check_render_case, 'gsave': check_gsave_case}
 
 
 def run_cases(chunk, R):
@@ -1120,7 +1200,8 @@ def run_cases(chunk, R):
             vs, outcome = CHECKERS[case['kind']](case, tmp, T, R)
             R.case(sample=case if R.evals % 211 == 0 else None, nontrivial=R.nt)
             R.outcomes['result:' + outcome] += 1
-            tool = {'k2p': 'kthlist2pebbling', 'shuffle': 'cnfshuffle'}.get(case['kind'], case.get('tool'))
+            tool = {'k2p': 'kthlist2pebbling', 'shuffle': 'cnfshuffle',
+                    'gsave': 'graph-argument'}.get(case['kind'], case.get('tool'))
             R.outcomes['tool:' + tool] += 1
             if case['kind'] == 'formula':
                 f = case['f']
